@@ -1,0 +1,49 @@
+//go:build verif
+
+package req
+
+// Re-exports for the verification harness of property C20 (authentication headers).
+// Compiled only with -tags verif; no existing line is changed.
+
+// VerifDigestAuthorize runs the digest computation exactly as createDigestAuth does
+// (parseChallenge, newCredentials, authorize) for a challenge text, request URI and method,
+// and additionally returns the client nonce that was drawn.
+func VerifDigestAuthorize(chal, uri, method, username, password string) (auth, cnonce string, err error) {
+	if chal == "" {
+		return "", "", errDigestBadChallenge
+	}
+	c, err := parseChallenge(chal)
+	if err != nil {
+		return "", "", err
+	}
+	cr := newCredentials(uri, method, username, password, c)
+	auth, err = cr.authorize()
+	return auth, cr.cNonce, err
+}
+
+// VerifDigestErrClass maps the digest sentinel errors to a small enum.
+func VerifDigestErrClass(err error) string {
+	switch err {
+	case nil:
+		return "none"
+	case errDigestBadChallenge:
+		return "bad-challenge"
+	case errDigestCharset:
+		return "charset"
+	case errDigestAlgNotSupported:
+		return "alg"
+	case errDigestQopNotSupported:
+		return "qop"
+	}
+	return "other"
+}
+
+// VerifDigestHashLen returns the digest size in bytes of the hash registered for an
+// algorithm name, or -1 if the name is not registered.
+func VerifDigestHashLen(alg string) int {
+	f, ok := hashFuncs[alg]
+	if !ok {
+		return -1
+	}
+	return f().Size()
+}
